@@ -422,7 +422,10 @@ TypeOf(e, env) ==
          ELSE IF e.name = "false" THEN R(U("bool"), Bool(FALSE))
          ELSE IF e.name = "nil" THEN R(U("nil"), NoCV)
          ELSE ErrR("undefined")
-    [] e.k = "un" -> UnaryR(e.op, TypeOf(e.x, env))
+    [] e.k = "un" ->
+         LET x == TypeOf(e.x, env) IN
+         \* "As an exception to the addressability requirement, x may also be a (possibly parenthesized) composite literal"
+         IF e.op = "&" /\ e.x.k \in {"slicelit", "maplit"} /\ x.err = "" THEN R(<<"ptr", x.t>>, NoCV) ELSE UnaryR(e.op, x)
     [] e.k = "bin" -> BinaryR(e.op, TypeOf(e.x, env), TypeOf(e.y, env))
     [] e.k = "conv" -> ConvR(TY(e.t), TypeOf(e.x, env))
     [] e.k = "call" ->
@@ -769,6 +772,7 @@ PreludeLocals == << <<"vi", "int">>, <<"vi8", "int8">>, <<"vu8", "uint8">>, <<"v
   <<"vn", "N">>, <<"vp", "*int">>, <<"vsl", "[]int">>, <<"vm", "map[string]int">>, <<"vfn", "func(int) int">>, <<"va", "any">>,
   <<"ve", "error">>, <<"vch", "chan int">>, <<"vns", "NS">> >>
 
+PreludeLocalEntries == [j \in 1..Len(PreludeLocals) |-> Entry(PreludeLocals[j][1], TY(PreludeLocals[j][2]), "var", TRUE, 1, NoCV)]
 RECURSIVE DeclImports(_, _, _), DeclTops(_, _, _), CheckTopBodies(_, _, _)
 DeclImports(env, imps, j) ==
   IF j > Len(imps) \/ env.err # "" THEN env
@@ -776,7 +780,9 @@ DeclImports(env, imps, j) ==
        DeclImports(IF nm = "_" THEN env ELSE [Declare(env, nm, TVoid, "pkg", NoCV) EXCEPT !.err = IF @ = "" THEN "" ELSE "import name redeclared"], imps, j + 1)
 CheckFunc(env, params, res, pre, body) ==
   LET e1 == DeclareAll([Push(env) EXCEPT !.res = TYs(res)], [j \in 1..Len(params) |-> params[j].name], [j \in 1..Len(params) |-> TY(params[j].t)], TRUE, 1)
-      e2 == IF pre THEN DeclareAll(e1, [j \in 1..Len(PreludeLocals) |-> PreludeLocals[j][1]], [j \in 1..Len(PreludeLocals) |-> TY(PreludeLocals[j][2])], TRUE, 1) ELSE e1
+      e2 == IF ~pre THEN e1
+            ELSE IF Len(params) = 0 /\ e1.err = "" THEN [e1 EXCEPT !.vars = @ \o PreludeLocalEntries]      \* (same as DeclareAll, precomputed)
+            ELSE DeclareAll(e1, [j \in 1..Len(PreludeLocals) |-> PreludeLocals[j][1]], [j \in 1..Len(PreludeLocals) |-> TY(PreludeLocals[j][2])], TRUE, 1)
       e3 == Pop(CheckStmts(body, 1, e2))
       syn == SynFunc(res, body) IN
   IF e3.err # "" THEN e3 ELSE IF syn # "" THEN Fail(e3, syn) ELSE [e3 EXCEPT !.res = <<>>]
